@@ -16,7 +16,7 @@ TYPES = [
     (lambda: ci("::Array", [ci("::Integer")]), "[1]"), (lambda: {"class": "alias", "name": "int"}, "1"),
     (lambda: {"class": "alias", "name": "string"}, '"s"'), (lambda: {"class": "literal", "literal": ":ok"}, ":ok"),
     (lambda: {"class": "literal", "literal": "42"}, "42"), (lambda: {"class": "alias", "name": "size"}, "1"),   # declared alias
-    (lambda: {"class": "variable", "name": "T"}, "1"), (lambda: {"class": "tuple", "types": [ci("Integer")]}, "[1]"),
+    (lambda: {"class": "variable", "name": "T"}, "1"), (lambda: {"class": "alias", "name": "loop_a"}, "1"), (lambda: {"class": "tuple", "types": [ci("Integer")]}, "[1]"),
     (lambda: {"class": "union", "types": [{"class": "literal", "literal": ":a"}, {"class": "literal", "literal": ":b"}, {"class": "nil"}]}, ":a"),
 ]
 RETURNS = [lambda: {"class": "void"}, lambda: ci("::Integer"), lambda: {"class": "self"}, lambda: {"class": "instance"},
@@ -62,7 +62,10 @@ def gen_document(r, nmeth=6):
                                {"required_positionals": [], "optional_positionals": [], "rest_positionals": None, "trailing_positionals": [],
                                 "required_keywords": {}, "optional_keywords": {}, "rest_keywords": None, "return_type": {"class": "void"}},
                                "block": None}}]},
-               {"declaration": "alias", "name": "size", "type": ci("::Integer"), "member": ""}]
+               {"declaration": "alias", "name": "size", "type": ci("::Integer"), "member": ""},
+               # aliases that name each other (rbs parse accepts them, rbs validate does not): they resolve to nothing
+               {"declaration": "alias", "name": "loop_a", "type": {"class": "alias", "name": "loop_b"}, "member": ""},
+               {"declaration": "alias", "name": "loop_b", "type": {"class": "alias", "name": "loop_a"}, "member": ""}]
     methods = []
     for i in range(nmeth):
         ft, vals = gen_functype(r, heavy_kw=r.random() < 0.4)
